@@ -10,6 +10,9 @@
           28 = C07_template_counts: not the per-template histogram of the cluster's spikes
           29 = C07_cluster_spikes: per-cluster / per-template query differs from the group
           3  = input outside the stated regime (harness bug)
+   Stage 3: InSpcDt / InIndexOfDt are judged against the dtype-aware models spikes_per_cluster_dt /
+   index_of_dt (model equality, code 1, also where the arithmetic wraps); the property clauses 21, 22 / 25
+   are judged where C07_no_wrap / C07_no_wrap_index_of say the dtype-aware function is the one over Z.
    One abstract input is run under several dtypes; every distinct observation is judged. *)
 From Coq Require Import ZArith List Lia Bool Arith.
 From Coq Require Import Floats.
@@ -27,6 +30,8 @@ Inductive input :=
 | InGMean (cols : list (list Z)) (sc : list Z)
 | InSpikesOf (v : list Z) (c : Z)                 (* get_cluster_spikes / get_template_spikes *)
 | InCounts (sc st : list Z) (nt c : Z)            (* get_template_counts *)
+| InSpcDt (lo hi : Z) (sc : list Z) (ids : option (list Z))   (* _spikes_per_cluster on dtype [lo, hi] *)
+| InIndexOfDt (arr lookup : list Z)               (* _index_of, table size in int32 arithmetic *)
 | InBad.                                          (* the harness could not build the input *)
 
 (* a float64 value, exactly: (-1)^neg * mant * 2^exp *)
@@ -171,6 +176,24 @@ Definition check1 (i : input) (o : obs1) : list Z :=
         judge ((length sc <=? length st)%nat && forallb (fun v => 0 <=? v) st)
               (get_template_counts sc st nt c) zlist_eqb ol
               (fun r => flag 28 (counts_b sc st nt c r)) [28]
+      end
+  | InSpcDt lo hi sc ids =>
+      let dt := mkdt lo hi in
+      if negb ((lo <=? 0) && (1 <=? hi) && forallb (in_dt_b dt) sc) then [3] else
+      match as_dict o with None => [3] | Some od =>
+        let e := eff_ids sc ids in
+        judge ((length sc <=? length e)%nat && span_fits_b dt sc)
+              (spikes_per_cluster_dt dt sc ids) (list_eqb group_eqb) od
+              (fun d => flag 21 (groups_b sc e d) ++ flag 22 (partition_b sc e d)) [21; 22]
+      end
+  | InIndexOfDt arr lookup =>
+      let fits := lk_max lookup + 2 <=? dt_hi int32 in
+      if negb (forallb (in_dt_b int32) lookup && (negb fits || (lk_max lookup <? 1048576))) then [3] else
+      match as_list o with None => [3] | Some ol =>
+        judge (fits && sorted_lt_b (np_sort lookup) && forallb (fun v => 0 <=? v) lookup &&
+               forallb (fun x => (x =? -1) || memZ x lookup) arr)
+              (index_of_dt int32 arr lookup) zlist_eqb ol
+              (fun r => flag 25 (indexof_b arr lookup r)) [25]
       end
   | InBad => [3]
   end.
